@@ -449,6 +449,47 @@ pub mod script {
         serde::forward_to_deserialize_any! { bool i8 i16 i32 i64 i128 u8 u16 u32 u64 u128 f32 f64 char str string bytes byte_buf unit unit_struct seq tuple tuple_struct map struct enum identifier ignored_any }
     }
 
+    /// a self-describing document made of nested maps: `{ k0: v0, k1: v1 }` where a value is a scalar, a string
+    /// or another such map — what a JSON object looks like to a `deserialize_any` consumer
+    #[derive(Clone, Copy)]
+    pub enum Node<'a> {
+        U(u64),
+        S(&'a str),
+        M(&'a [(&'a str, Node<'a>)]),
+        Unit,
+    }
+    pub struct NodeD<'a>(pub Node<'a>);
+    pub struct NodeMap<'a> {
+        pub entries: &'a [(&'a str, Node<'a>)],
+        pub i: usize,
+    }
+    impl<'de, 'a> de::Deserializer<'de> for NodeD<'a> {
+        type Error = DE;
+        fn deserialize_any<V: Visitor<'de>>(self, v: V) -> Result<V::Value, DE> {
+            match self.0 {
+                Node::U(x) => v.visit_u64(x),
+                Node::S(s) => v.visit_str(s),
+                Node::M(e) => v.visit_map(NodeMap { entries: e, i: 0 }),
+                Node::Unit => v.visit_unit(),
+            }
+        }
+        serde::forward_to_deserialize_any! { bool i8 i16 i32 i64 i128 u8 u16 u32 u64 u128 f32 f64 char str string bytes byte_buf option unit unit_struct newtype_struct seq tuple tuple_struct map struct enum identifier ignored_any }
+    }
+    impl<'de, 'a> de::MapAccess<'de> for NodeMap<'a> {
+        type Error = DE;
+        fn next_key_seed<K: DeserializeSeed<'de>>(&mut self, seed: K) -> Result<Option<K::Value>, DE> {
+            if self.i >= self.entries.len() {
+                return Ok(None);
+            }
+            seed.deserialize(KeyD(self.entries[self.i].0)).map(Some)
+        }
+        fn next_value_seed<V: DeserializeSeed<'de>>(&mut self, seed: V) -> Result<V::Value, DE> {
+            let n = self.entries[self.i].1;
+            self.i += 1;
+            seed.deserialize(NodeD(n))
+        }
+    }
+
     pub struct UnitD;
     impl<'de> de::Deserializer<'de> for UnitD {
         type Error = DE;
